@@ -104,10 +104,28 @@ func C03(c *ev.Ctx) {
 			}
 		}
 	}
-	m, err := newGenModule(c, "mod-c03")
+	checked, totalStates, outcomesEv, ok := concRun(c, progs, "c03.", "mod-c03")
+	c.Set("states_explored", totalStates)
+	if !ok {
+		return
+	}
+	sort.Strings(nil)
+	c.Set("programs_checked", checked)
+	c.Set("outcomes", outcomesEv)
+	c.Set("evaluations", checked)
+	c.Set("distinct_nontrivial", checked)
+	c.Set("rule", "concurrent template programs (2-3 goroutines, mutex / cond / waitgroup / timed wait) whose emitted text was explored exhaustively by TLC over all interleavings of visible primitives; all are distinct templates")
+	c.AddTraces(checked)
+	c.Sample(map[string]any{"kind": "concurrent program", "source": progs[0].Source})
+}
+
+// concRun translates the concurrent programs in one invocation, samples Go's outcomes for the accepted ones and lets
+// TLC explore every interleaving of the emitted text; disagreements are reported under prefix+key.
+func concRun(c *ev.Ctx, progs []goosegen.ConcProgram, prefix, mod string) (checked int, totalStates int64, outcomesEv map[string]any, okRun bool) {
+	m, err := newGenModule(c, mod)
 	if err != nil {
 		c.Inconclusive("module: %v", err)
-		return
+		return 0, 0, nil, false
 	}
 	defer os.RemoveAll(m.dir)
 	for i, p := range progs {
@@ -115,33 +133,31 @@ func C03(c *ev.Ctx) {
 	}
 	gout := m.runGoose(c, "-ignore-errors")
 	if gout.exit == 2 || strings.Contains(gout.stderr, "goroutine ") {
-		c.Inconclusive("goose crashed on the C03 batch (judged by C07):\n%s", firstLines(gout.stderr, 12))
-		return
+		c.Inconclusive("goose crashed on the concurrent batch (judged by C07):\n%s", firstLines(gout.stderr, 12))
+		return 0, 0, nil, false
 	}
 	errs := errorLines(gout.stderr)
 	pb, _ := os.ReadFile(filepath.Join(c.Verif, "spec", "gooselang", "prelude.v"))
 	pf, err := vparse.ParseFile(string(pb))
 	if err != nil {
 		c.Inconclusive("prelude: %v", err)
-		return
+		return 0, 0, nil, false
 	}
 	gb, _ := os.ReadFile(filepath.Join(c.Verif, "spec", "gooselang", "prelude_gocond.v"))
 	pfGo, err := vparse.ParseFile(string(gb))
 	if err != nil {
 		c.Inconclusive("prelude_gocond: %v", err)
-		return
+		return 0, 0, nil, false
 	}
 	runs := c.Pick(24, 200)
-	checked := 0
-	var totalStates int64
-	outcomesEv := map[string]any{}
+	outcomesEv = map[string]any{}
 	for i, p := range progs {
 		pkg := fmt.Sprintf("c%d", i)
 		text := gout.files[pkg]
 		if len(errs[pkg]) > 0 || !strings.Contains(text, "Definition entry:") {
 			outcomesEv[p.Key] = "rejected by goose"
 			if !p.Boundary {
-				c.Violation("c03.rejected."+p.Key, fmt.Sprintf("goose rejects the concurrent subset program %s:\n%s", p.Key, extractErrors(gout.stderr, pkg)), map[string]string{"gen.go": p.Source})
+				c.Violation(prefix+"rejected."+p.Key, fmt.Sprintf("goose rejects the concurrent subset program %s:\n%s", p.Key, extractErrors(gout.stderr, pkg)), map[string]string{"gen.go": p.Source})
 			}
 			continue
 		}
@@ -152,7 +168,7 @@ func C03(c *ev.Ctx) {
 		}
 		prog, perrs := vparse.ParseFileLenient(text)
 		if len(perrs) > 0 {
-			c.Violation("c03.unparsable."+p.Key, fmt.Sprintf("emitted text of %s is not well formed: %v", p.Key, perrs[0].Err), map[string]string{"gen.go": p.Source, "emitted.v": text})
+			c.Violation(prefix+"unparsable."+p.Key, fmt.Sprintf("emitted text of %s is not well formed: %v", p.Key, perrs[0].Err), map[string]string{"gen.go": p.Source, "emitted.v": text})
 			continue
 		}
 		variants := []string{"perennial"}
@@ -172,16 +188,16 @@ func C03(c *ev.Ctx) {
 				rty = map[string]any{"t": "u64"}
 			}
 			l.AddTest(p.Key, gl.CallNoArgs("entry"), rty)
-			dir, ok := glSpecDir(c, "spec-gl-c03-"+pkg+"-"+variant)
+			dir, ok := glSpecDir(c, "spec-gl-"+mod+"-"+pkg+"-"+variant)
 			if !ok {
 				return
 			}
-			outs, r, err := gl.Run(dir, l, gl.RunOpts{Mode: "conc", Fuel: 400, Workers: 14, Timeout: time.Duration(c.Pick(6, 30)) * time.Minute, HeapMB: 16000, Live: p.Deterministic})
+			outs, r, err := gl.Run(dir, l, gl.RunOpts{Mode: "conc", Fuel: 400, Workers: 14, Timeout: time.Duration(c.Pick(6, 30)) * time.Minute, HeapMB: 16000, Live: p.Deterministic || p.Terminates})
 			c.AddTLC(r)
 			totalStates += r.Distinct
 			if dbg := os.Getenv("VERIF_DEBUG_DIR"); dbg != "" {
-				_ = os.WriteFile(filepath.Join(dbg, "c03-"+p.Key+".tlc.txt"), []byte(r.Out), 0644)
-				_ = os.WriteFile(filepath.Join(dbg, "c03-"+p.Key+".v"), []byte(text), 0644)
+				_ = os.WriteFile(filepath.Join(dbg, mod+"-"+p.Key+".tlc.txt"), []byte(r.Out), 0644)
+				_ = os.WriteFile(filepath.Join(dbg, mod+"-"+p.Key+".v"), []byte(text), 0644)
 			}
 			_ = os.RemoveAll(dir)
 			liveViolated := strings.Contains(r.Out, "Temporal properties were violated") || strings.Contains(r.Out, "Temporal property Terminates was violated")
@@ -191,7 +207,7 @@ func C03(c *ev.Ctx) {
 				for _, o := range outs {
 					b, _ := json.Marshal(normTLA(o.Res))
 					if o.St == "stuck" || !G[string(b)] {
-						c.Report("c03."+p.Key, fmt.Sprintf("concurrent program %s: the exploration was cut off after %d states, but it already reached the final outcome %s (%s %s); Go only produces %v", p.Key, r.Distinct, string(b), o.St, o.Why, keysList(G)),
+						c.Report(prefix+p.Key, fmt.Sprintf("concurrent program %s: the exploration was cut off after %d states, but it already reached the final outcome %s (%s %s); Go only produces %v", p.Key, r.Distinct, string(b), o.St, o.Why, keysList(G)),
 							map[string]string{"gen.go": p.Source, "emitted.v": text})
 						break
 					}
@@ -232,23 +248,16 @@ func C03(c *ev.Ctx) {
 				bad = fmt.Sprintf("the Go result does not depend on the schedule (%v) but the emitted program has several outcomes %v", gs, ts)
 			case p.Deterministic && !reflect.DeepEqual(gs, ts):
 				bad = fmt.Sprintf("outcome sets differ: Go %v, model %v", gs, ts)
-			case p.Deterministic && liveViolated:
+			case (p.Deterministic || p.Terminates) && liveViolated:
 				bad = "some fair interleaving of the emitted program never finishes (a thread spins forever): TLC reports a lasso violating <>Finished"
 			}
 			if bad != "" {
-				c.Report("c03."+p.Key, fmt.Sprintf("concurrent program %s (condition variables: %s semantics): %s", p.Key, variant, bad), files)
+				c.Report(prefix+p.Key, fmt.Sprintf("concurrent program %s (condition variables: %s semantics): %s", p.Key, variant, bad), files)
 				break
 			}
 		}
 	}
-	sort.Strings(nil)
-	c.Set("programs_checked", checked)
-	c.Set("outcomes", outcomesEv)
-	c.Set("evaluations", checked)
-	c.Set("distinct_nontrivial", checked)
-	c.Set("rule", "concurrent template programs (2-3 goroutines, mutex / cond / waitgroup / timed wait) whose emitted text was explored exhaustively by TLC over all interleavings of visible primitives; all are distinct templates")
-	c.AddTraces(checked)
-	c.Sample(map[string]any{"kind": "concurrent program", "source": progs[0].Source})
+	return checked, totalStates, outcomesEv, true
 }
 
 func subset(a, b map[string]bool) bool {
